@@ -165,8 +165,10 @@ ImportOut(it, o) ==
        \o [i \in 1..n |-> Close(id)]
 
 ImportPlain(it, o) ==      \* no import sign: the rule passes through
-    <<Out([k |-> "at", v |-> KW(it, "import")], "free", it.id),
-      Out([k |-> IF it.form = "url" THEN "url" ELSE "string", v |-> it.path], "free", it.id)>>
+    <<Out([k |-> "at", v |-> KW(it, "import")], "free", it.id)>>
+    \o (IF it.form = "URLSTR"        \* `Url( "path" )`: the function form with a quoted argument, its name in another letter case
+        THEN <<Out([k |-> "func", v |-> "Url"], "free", it.id), Out([k |-> "string", v |-> it.path], "free", it.id), Out([k |-> ")"], "free", it.id)>>
+        ELSE <<Out([k |-> IF it.form = "url" THEN "url" ELSE "string", v |-> it.path], "free", it.id)>>)
     \o (IF it.layer = "none" THEN <<>>
         ELSE IF it.layer = "" THEN <<Out([k |-> "ident", v |-> KW(it, "layer")], "free", it.id)>>
         ELSE <<Out([k |-> "func", v |-> KW(it, "layer")], "free", it.id)>> \o LayerName(it, it.id) \o <<Out([k |-> ")"], "free", it.id)>>)
